@@ -126,7 +126,18 @@ func (c *ctx) nilSafety() {
 			fd := fc.funcDecl(as)
 			key := fmt.Sprintf("%s|%s := %s(...)", fc.funcName(as), v.Name(), astx.Callee(info, call).Name())
 			bad := ""
-			nonNil := func(at ast.Node) bool {
+			var nonNil func(at ast.Node) bool
+			nonNil = func(at ast.Node) bool {
+				// inside a function literal created where the value is already known to be non-nil (the value is
+				// bound once, ahead of the literal): the literal's body inherits that
+				for x := fc.par[at]; x != nil && x != ast.Node(fd); x = fc.par[x] {
+					if fl, ok := x.(*ast.FuncLit); ok && v.Pos() < fl.Pos() && as.End() < fl.Pos() {
+						if nonNil(fl) {
+							return true
+						}
+						break
+					}
+				}
 				for _, cd := range fc.par.Known(at, fd) {
 					if e, ok := astx.EqNil(info, cd.E); ok && !cd.Pos && astx.IdentObj(info, e) == v {
 						return true
